@@ -41,6 +41,9 @@ AnyMism(e) ==
   \* (the typed ICMP headers normalise unused bytes: their fidelity belongs to Ctl.tla)
   \cup (IF e.slice[1] = 1 /\ e.type \notin {"icmp4", "icmp6"} /\ e.sre # Enc(e.type, Dec(e.type, SubSeq(e.bytes, 1, HdrLen(e.type, e.bytes))))
         THEN {"reencode:" \o e.type} ELSE {})
+  \* the io::Read decoder of the same bytes: same fields, so the same re-encoding
+  \cup (IF e.read[1] = 1 /\ e.type \notin {"icmp4", "icmp6"} /\ e.rre # Enc(e.type, Dec(e.type, SubSeq(e.bytes, 1, HdrLen(e.type, e.bytes))))
+        THEN {"reencode.read:" \o e.type} ELSE {})
 
 VARIABLES l, bad
 TraceInit == l = 1 /\ bad = {}
